@@ -279,8 +279,7 @@ theorem go_get : ∀ (l : List Event) (k dn d' : Nat), k < l.length → scan (l.
         List.getElem?_cons_zero, Option.some.injEq]
       by_cases h0 : dn1 = 0
       · simp [h0]
-      · have : ¬ ((dn1 : Int) = 0) := by omega
-        simp [h0, this]
+      · simp [h0]
     | succ k =>
       simp only [List.reverse_cons, List.reverse_nil, List.nil_append, List.cons_append,
         List.getElem?_cons_succ]
